@@ -23,6 +23,7 @@ YANG1 = """module rtx1 { yang-version 1.1; namespace "urn:verif:rtx1"; prefix a;
     leaf un { type union { type int8; type boolean; type string; } }
     leaf-list ll { type string; ordered-by user; }
     leaf-list sl { type int16; }
+    leaf-list dl { type string; ordered-by user; default "x"; default "y"; }
     list l { key k; leaf k { type string; } leaf v { type string; } container in { presence "p"; leaf w { type uint8; } } }
     anydata any;
     anyxml axml;
@@ -46,17 +47,20 @@ STR = [b"", b"a", b"a b", b" ", b"&", b"<", b">", b"\"", b"'", b"]]>", b"a\tb", 
 
 class N:
     """node of the independent instance model"""
-    def __init__(self, mod, name, kind, val=None, kids=None, jt="str", meta=None):
+    def __init__(self, mod, name, kind, val=None, kids=None, jt="str", meta=None, implicit=False):
         self.mod, self.name, self.kind, self.val, self.kids, self.jt, self.meta = mod, name, kind, val, kids or [], jt, meta or []
+        self.implicit = implicit        # a default the library adds: not in the input documents, present in report-all output
 
 
 def xesc(b, attr=False):
     return rtcomp.xml_escape(b, attr)
 
 
-def to_xml(nodes, parent_mod=None):
+def to_xml(nodes, parent_mod=None, implicit=False):
     out = []
     for n in nodes:
+        if n.implicit and not implicit:
+            continue
         ns = NS1 if n.mod == "rtx1" else NS2
         tag = n.name.encode()
         o = b"<" + tag
@@ -71,7 +75,7 @@ def to_xml(nodes, parent_mod=None):
         elif n.kind == "anyxml-val":
             out.append(o + b">" + xesc(n.val) + b"</" + tag + b">")
         else:
-            out.append(o + b">" + to_xml(n.kids, n.mod) + b"</" + tag + b">")
+            out.append(o + b">" + to_xml(n.kids, n.mod, implicit) + b"</" + tag + b">")
     return b"".join(out)
 
 
@@ -90,9 +94,11 @@ def jmeta(meta):
     return {("rtx2:" if k == "tag" else "rtx1:") + k: (int(v) if k == "num" else v.decode("utf-8")) for k, v in meta}
 
 
-def to_json(nodes, parent_mod=None):
+def to_json(nodes, parent_mod=None, implicit=False):
     obj = {}
     for n in nodes:
+        if n.implicit and not implicit:
+            continue
         name = (n.mod + ":" if n.mod != parent_mod else "") + n.name
         if n.kind == "leaf":
             obj[name] = jval(n)
@@ -106,7 +112,7 @@ def to_json(nodes, parent_mod=None):
                     arr.append(None)
                 arr.append(jmeta(n.meta) if n.meta else None)
         elif n.kind == "list":
-            o = to_json(n.kids, n.mod)
+            o = to_json(n.kids, n.mod, implicit)
             if n.meta:
                 o["@"] = jmeta(n.meta)
             obj.setdefault(name, []).append(o)
@@ -115,11 +121,11 @@ def to_json(nodes, parent_mod=None):
             if n.meta:
                 obj["@" + name] = jmeta(n.meta)
         elif n.kind == "any":
-            obj[name] = to_json(n.kids, n.mod)
+            obj[name] = to_json(n.kids, n.mod, implicit)
             if n.meta:
                 obj["@" + name] = jmeta(n.meta)      # RFC 7952 sec. 5.2.3: sibling member, as for a leaf
         else:
-            o = to_json(n.kids, n.mod)
+            o = to_json(n.kids, n.mod, implicit)
             if n.meta:
                 o["@"] = jmeta(n.meta)
             obj[name] = o
@@ -207,6 +213,14 @@ def gen_top(rng):
             k.append(N("rtx1", "ll", "leaflist", v, meta=meta_of(rng)))
     for v in sorted(set(rng.choice([-32768, -5, 0, 9, 10, 32767]) for _ in range(rng.randrange(0, 4)))):
         k.append(N("rtx1", "sl", "leaflist", str(v).encode(), jt="num", meta=meta_of(rng, 0.15)))
+    if rng.random() < 0.35:
+        seen = []
+        for v in [rng.choice([b"x", b"y", b"v", b"w"]) for _ in range(rng.randrange(1, 4))]:
+            if v not in seen:
+                seen.append(v)
+                k.append(N("rtx1", "dl", "leaflist", v, meta=meta_of(rng, 0.5)))
+    else:
+        k += [N("rtx1", "dl", "leaflist", b"x", implicit=True), N("rtx1", "dl", "leaflist", b"y", implicit=True)]
     keys = sorted(set(rng.choice([b"a", b"b", b"a b", b"&", b"it's", b"q\"q", b"\xc3\xa9", b"]", b"zz"]) for _ in range(rng.randrange(0, 4))))
     for key in keys:
         kk = [N("rtx1", "k", "leaf", key)]
@@ -264,6 +278,23 @@ def classify(component, what, case):
     return case.get("triage")
 
 
+def dl_default_explicit(doc, fmt):
+    d = doc.decode("utf-8", "replace")
+    return (">x</dl>" in d or ">y</dl>" in d) if fmt == "xml" else ('"dl": [' in d and ('"x"' in d or '"y"' in d))
+
+
+def f17_cells_only(matrix):
+    """cell order: 3 formats x (explicit, trim, all, all-tag, impl-tag) x shrink(2; lyb 1): only trim and all-tag cells may differ"""
+    k = 0
+    for fo in range(3):
+        for wd in range(5):
+            for sh in range(1 if fo == 2 else 2):
+                if matrix[k] not in "=-" and (wd not in (1, 3) or matrix[k] != "!"):
+                    return False        # F17 loses an instance (cell '!'); a rejected own output ('R') is something else
+                k += 1
+    return True
+
+
 def run_rtx(cx, laws=("roundtrip", "independent")):
     rng = cx.sub_rng("rtx")
     searchdir = paths.REPO + "/tests/modules/yang"
@@ -275,9 +306,10 @@ def run_rtx(cx, laws=("roundtrip", "independent")):
     for i in range(n):
         t = gen_top(rng)
         x, j = to_xml(t), json.dumps(to_json(t), ensure_ascii=False).encode("utf-8")
+        xe, je = to_xml(t, implicit=True), json.dumps(to_json(t, implicit=True), ensure_ascii=False).encode("utf-8")
         for fmt, doc in (("xml", x), ("json", j)):
             lines.append("%d rt rt %s %s" % (len(lines), fmt, hexs(doc)))
-            meta[len(lines) - 1] = ("rt", fmt, doc, x, j)
+            meta[len(lines) - 1] = ("rt", fmt, doc, x, j, xe, je)
         lines.append("%d rt cross %s %s" % (len(lines), hexs(x), hexs(j)))
         meta[len(lines) - 1] = ("cross", None, None, x, j)
         if i % 25 == 24:
@@ -305,7 +337,8 @@ def run_rtx(cx, laws=("roundtrip", "independent")):
         cx.fail("rtx", "fixed schema rejected", {"reply": ri.get("0")})
         return
     for i in range(1, len(lines)):
-        kind, fmt, doc, x, j = meta[i]
+        kind, fmt, doc, x, j = meta[i][:5]
+        xe, je = (meta[i][5], meta[i][6]) if len(meta[i]) > 5 else (x, j)
         r = ri.get(str(i), ["err", "NoReply"])
         base = {"xml": x.decode("utf-8", "replace")[:3000], "json": j.decode("utf-8", "replace")[:3000], "reply": r[:2]}
         if kind == "f49":
@@ -330,7 +363,10 @@ def run_rtx(cx, laws=("roundtrip", "independent")):
             xmlitems.append((unhex(r[4]), px))
         if "roundtrip" in laws:
             bad = [c for c in matrix if c not in "=-"]
-            if bad:
+            if bad and kind == "rt" and dl_default_explicit(doc, fmt) and f17_cells_only(matrix):
+                cx.fail("rtx", "trim / report-all-tagged lose an explicit leaf-list instance that equals one of several defaults",
+                        dict(base, matrix=matrix, triage="F17"))
+            elif bad:
                 cx.fail("rtx", "print -> parse does not give back the %s tree (matrix %s)" % (kind, matrix), dict(base, doc=doc.decode("utf-8", "replace")[:3000], matrix=matrix))
         if "independent" in laws and fmt == "xml":
             try:
@@ -338,7 +374,7 @@ def run_rtx(cx, laws=("roundtrip", "independent")):
                 okj = True
             except Exception:
                 okj, got = False, None
-            exp = json.loads(j.decode("utf-8"))
+            exp = json.loads(je.decode("utf-8"))
             if kind == "rtop":
                 pass
             if not okj:
@@ -346,12 +382,14 @@ def run_rtx(cx, laws=("roundtrip", "independent")):
             elif norm_json(got) != norm_json(exp):
                 cx.fail("rtx", "JSON output read by an independent parser differs from the independent RFC 7951/7952 encoding of the same instance",
                         dict(base, json_out=pj.decode("utf-8", "replace")[:3000]))
-            a, b = xml_struct(px), xml_struct(x)
+            a, b = xml_struct(px), xml_struct(xe)
             if a is None:
                 cx.fail("rtx", "XML output is not well-formed", dict(base, xml_out=px.decode("utf-8", "replace")[:3000]))
             elif a != b:
                 cx.fail("rtx", "XML output read by an independent parser differs from the independent XML encoding of the same instance (elements, namespaces, attributes or character data)",
                         dict(base, xml_out=px.decode("utf-8", "replace")[:3000], first_diff=rtcomp.first_diff(a, b)))
     rtcomp.model_xml_print(cx, xmlitems, "rtx")
+    rtcomp.model_json_print(cx, [(0, "xml", m[3]) for m in meta.values() if m[0] == "rt" and m[1] == "xml"],
+                            [head.split(" ", 3)[3]], "rtx")
     rtcomp.spec_xmldoc_vs_expat(cx, [px for _, px in xmlitems] + [m[3] for m in meta.values() if m[0] == "rt" and m[1] == "xml"], "rtx")
     cx.sample(lines[1][:300])
